@@ -122,3 +122,34 @@ def pair_case(case, i, j):
 
 def triple_case(case, i, j, k):
     return {"spec": case["spec"], "preds": case["preds"], "types": [case["types"][i], case["types"][j], case["types"][k]]}
+
+
+def late_registration(case, rng, objs, w):
+    """After the first sweep over a world: register one more virtual subclass on one of its ABCs (abc.ABCMeta.register
+    on the very class objects the types were built from) and sweep again.  -> None when the world offers no such step,
+    else (ords2, subs2, (abc index, class index)).  The relation the library must follow is the current one."""
+    spec = case["spec"]
+    cands = []
+    for i, sp in enumerate(spec):
+        if sp["kind"] != "abc":
+            continue
+        for r, sr in enumerate(spec):
+            if r == i or sr["kind"] == "proto":
+                continue
+            try:
+                if issubclass(w.user[r], w.user[i]) or issubclass(w.user[i], w.user[r]):
+                    continue
+            except TypeError:
+                continue
+            cands.append((i, r))
+    if not cands:
+        return None
+    i, r = rng.choice(cands)
+    try:
+        w.user[i].register(w.user[r])
+    except Exception:  # noqa  (would create a cycle)
+        return None
+    n = len(objs)
+    ords2 = [[impl_ord(objs[a], objs[b]) for b in range(n)] for a in range(n)]
+    subs2 = [[impl_sub(objs[a], objs[b]) for b in range(n)] for a in range(n)]
+    return ords2, subs2, (i, r)
